@@ -14,6 +14,7 @@ for P in "$@"; do
   RC=$?
   echo "== $P rc=$RC ($(( $(date +%s) - START ))s)"
   grep -E "^VIOLATION|^  \(" "$OUTD/$P.log" | head -6
+  [ "$RC" = "2" ] && { grep -B2 -A45 "most recent call first" "$OUTD/$P.log" | head -120; tail -5 "$OUTD/$P.log"; }
 done
 git -C /repo worktree remove --force "$WT"
 # restore the generated tables to /repo's state
